@@ -5,7 +5,7 @@
 // repository under test is run concurrently by every committee member over its own WebSocket client.
 // One op line = one schedule:
 //
-//	op deploy n=<size> delays=<ms,...> absent=<members|-> cancel=<member>@<blocks>|- rerun=<0|1>
+//	op deploy n=<size> delays=<ms,...> absent=<members|-> cancel=<members|all>@<blocks>|<members|all>@<notary|alphabet>+<k>|- rerun=<0|1>
 //	op boot   n=<size> live=<members>            (Notary bootstrap only, also for live sets that must stall)
 //	op upgrade n=<size> delays=<ms,...> before=<blocks>   (previous-version executables on chain, then the procedure with the
 //	                                             supplied ones, entered <blocks> ahead of a multiple of 100: every contract is
@@ -925,7 +925,10 @@ type outcome struct {
 	RerunChanged   []string          `json:"rerun_changed,omitempty"`
 	RerunErrors    []string          `json:"rerun_errors,omitempty"`
 	BootSigners    []int             `json:"bootstrap_signers"`
+	AnchorAt       uint32            `json:"role_designation_seen_at,omitempty"`
 	CancelledAt    uint32            `json:"cancelled_at,omitempty"`
+	RolesAtCancel  string            `json:"roles_on_chain_at_cancel,omitempty"`
+	RolesAtRestart string            `json:"roles_on_chain_at_restart,omitempty"`
 	CancelOutcome  string            `json:"cancel_outcome,omitempty"`
 }
 
@@ -938,11 +941,34 @@ func (w *world) opDeploy(line string, n int, kv map[string]string) string {
 	delays := parseInts(kv["delays"])
 	absent := parseInts(kv["absent"])
 	rerun := kv["rerun"] != "0"
-	cancelWho, cancelAt := -1, 0
+	// cancel=<member|all>@<blocks>            blocks after the start of the run
+	// cancel=<member|all>@notary+<k>          k blocks after the chain first shows the Notary role designated to the committee
+	// cancel=<member|all>@alphabet+<k>        the same for the NeoFSAlphabet role (the anchors are observed on the chain, not assumed)
+	var cancelWho []int
+	cancelAnchor, cancelAt := "", 0
 	if c := kv["cancel"]; c != "" && c != "-" {
-		p := strings.Split(c, "@")
-		cancelWho, _ = strconv.Atoi(p[0])
-		cancelAt, _ = strconv.Atoi(p[1])
+		p := strings.SplitN(c, "@", 2)
+		if len(p) != 2 {
+			w.t.Fatalf("bad cancel spec in %q", line)
+		}
+		if p[0] == "all" {
+			for i := 0; i < n; i++ {
+				cancelWho = append(cancelWho, i)
+			}
+		} else {
+			cancelWho = parseInts(p[0])
+		}
+		at := p[1]
+		if i := strings.IndexByte(at, '+'); i > 0 {
+			cancelAnchor, at = at[:i], at[i+1:]
+			if cancelAnchor != "notary" && cancelAnchor != "alphabet" {
+				w.t.Fatalf("bad cancel anchor in %q", line)
+			}
+		}
+		var err error
+		if cancelAt, err = strconv.Atoi(at); err != nil {
+			w.t.Fatalf("bad cancel spec in %q", line)
+		}
 	}
 	timeout := 150 * time.Second
 	nd := newNode(w.t, n)
@@ -992,21 +1018,63 @@ func (w *world) opDeploy(line string, n int, kv map[string]string) string {
 			ms[i] = nd.start(i, delayOf(i))
 		}
 	}
-	// one member is cancelled at a given block and restarted a few blocks later
-	if cancelWho >= 0 && cancelWho < n {
-		if nd.waitHeight(start+uint32(cancelAt), deadline) {
-			m := ms[cancelWho]
-			out.CancelledAt = nd.height()
-			m.cancel()
-			err := <-m.res
-			switch {
-			case err == nil:
-				out.CancelOutcome = "had finished"
-			default:
-				out.CancelOutcome = "interrupted"
+	// members are cancelled at a given block (or k blocks after a role designation shows on the chain) and restarted
+	// with a fresh process state a few blocks later
+	if len(cancelWho) > 0 {
+		reached := true
+		switch cancelAnchor {
+		case "":
+			reached = nd.waitHeight(start+uint32(cancelAt), deadline)
+		default:
+			role := noderoles.P2PNotary
+			if cancelAnchor == "alphabet" {
+				role = noderoles.NeoFSAlphabet
 			}
+			for !nd.roleIs(role) {
+				if nd.height() > start+600 || time.Now().After(deadline) || nd.prodErr.Load() != nil {
+					return fail("not-converged", fmt.Sprintf("n=%d: %s role not designated after %d blocks (producer: %v)", n, role, nd.height()-start, nd.prodErr.Load()))
+				}
+				time.Sleep(2 * time.Millisecond)
+			}
+			out.AnchorAt = nd.height()
+			if cancelAt > 0 {
+				reached = nd.waitHeight(out.AnchorAt+uint32(cancelAt), deadline)
+			}
+		}
+		if reached {
+			out.CancelledAt = nd.height()
+			out.RolesAtCancel = fmt.Sprintf("notary=%v alphabet=%v", nd.roleIs(noderoles.P2PNotary), nd.roleIs(noderoles.NeoFSAlphabet))
+			for _, i := range cancelWho {
+				if i >= 0 && i < n && ms[i] != nil {
+					ms[i].cancel()
+				}
+			}
+			interrupted, finished := 0, 0
+			for _, i := range cancelWho {
+				if i >= 0 && i < n && ms[i] != nil {
+					if err := <-ms[i].res; err == nil {
+						finished++
+					} else {
+						interrupted++
+					}
+				}
+			}
+			switch {
+			case interrupted == 0:
+				out.CancelOutcome = "had finished"
+			case finished == 0:
+				out.CancelOutcome = "interrupted"
+			default:
+				out.CancelOutcome = "some interrupted"
+			}
+			out.RolesAtRestart = ""
 			nd.waitHeight(nd.height()+3, deadline)
-			ms[cancelWho] = nd.start(cancelWho, 0)
+			out.RolesAtRestart = fmt.Sprintf("notary=%v alphabet=%v", nd.roleIs(noderoles.P2PNotary), nd.roleIs(noderoles.NeoFSAlphabet))
+			for _, i := range cancelWho {
+				if i >= 0 && i < n {
+					ms[i] = nd.start(i, 0)
+				}
+			}
 		}
 	}
 	// all runs terminate successfully
@@ -1383,8 +1451,36 @@ func schedules(run *hx.Run) []sched {
 		out = append(out, sched{"wf", "op boot n=4 live=0,2,3"})
 		out = append(out, sched{"wf", "op boot n=2 live=0,1"})
 		out = append(out, sched{"nonwf", "op boot n=2 live=0 blocks=40"})
+		// restart INSIDE the window between two stages whose pre-checks are read at (re)start: the single member is cancelled
+		// at every block from the one that shows the Notary role on the chain until the NeoFSAlphabet role is there as well
+		// (the window is two blocks long here; one block beyond it is swept too), and right after the Alphabet designation
+		for k := 0; k <= 2; k++ {
+			out = append(out, sched{"wf", fmt.Sprintf("op deploy n=1 delays=0 absent=- cancel=0@notary+%d rerun=1", k)})
+		}
+		out = append(out, sched{"wf", "op deploy n=1 delays=0 absent=- cancel=0@alphabet+0 rerun=1"})
 		return out
 	}
+	// the single member restarted at EVERY block of its run (an uninterrupted run takes about 70 blocks), and at every
+	// block of the role windows observed on the chain
+	for k := 1; k <= 75; k++ {
+		out = append(out, sched{"wf", fmt.Sprintf("op deploy n=1 delays=0 absent=- cancel=0@%d rerun=%d", k, k%2)})
+	}
+	for k := 0; k <= 4; k++ {
+		out = append(out, sched{"wf", fmt.Sprintf("op deploy n=1 delays=0 absent=- cancel=0@notary+%d rerun=1", k)})
+	}
+	for k := 0; k <= 2; k++ {
+		out = append(out, sched{"wf", fmt.Sprintf("op deploy n=1 delays=0 absent=- cancel=0@alphabet+%d rerun=1", k)})
+	}
+	// ALL members restarted in the window (nobody who ran the pre-checks on the fresh chain is left to do the skipped stage)
+	for _, n := range []int{2, 3, 4, 5} {
+		for k := 0; k <= 1; k++ {
+			out = append(out, sched{"wf", fmt.Sprintf("op deploy n=%d delays=%s absent=- cancel=all@notary+%d rerun=1", n, delays(n, 0), k)})
+		}
+	}
+	out = append(out, sched{"wf", fmt.Sprintf("op deploy n=4 delays=%s absent=- cancel=all@notary+2 rerun=1", delays(4, 200))})
+	out = append(out, sched{"wf", fmt.Sprintf("op deploy n=4 delays=%s absent=- cancel=all@alphabet+0 rerun=1", delays(4, 200))})
+	out = append(out, sched{"wf", fmt.Sprintf("op deploy n=4 delays=%s absent=- cancel=all@%d rerun=1", delays(4, 200), 10+rng.IntN(60))})
+	out = append(out, sched{"wf", fmt.Sprintf("op deploy n=4 delays=%s absent=- cancel=1,2,3@notary+0 rerun=1", delays(4, 200))})
 	// outside the property's quantifier, compared with the model only: the designation transaction is lost once;
 	// the model says the leader never sends another one (triedDesignateRoleTx is never reset)
 	out = append(out, sched{"nonwf", "op boot n=2 live=0,1 lose=1 blocks=330"})
